@@ -945,9 +945,13 @@ where
 		}
 	};
 
+	// Report the outcome first and wait until the shutdown watcher has recorded it (it drops its
+	// receiver once done), so that the closed front-end channel is never observable before the
+	// disconnect reason is.
+	let _ = close_tx.send(res).await;
+	close_tx.closed().await;
 	from_frontend.close();
 	let _ = sender.close().await;
-	let _ = close_tx.send(res).await;
 }
 
 struct ReadTaskParams<R: TransportReceiverT, S> {
